@@ -40,9 +40,10 @@ BASE = {
     "j2": [[1e8, 3.0], [1e8 + 1, 3.5], [1e8 + 2, 2.5], [1e8 + 7, 3.0], [1e8 + 8, 4.0], [1e8 + 9.5, 3.5]],
     "k1": [[2.0**20], [2.0**20 + 0.25], [2.0**20 + 0.5], [2.0**20 + 3], [2.0**20 + 3.5]],
     "m2": [[0, 0], [0.125, 0.5], [0.5, 0.125], [0.375, 0.375], [0.75, 0.5], [0.625, 0.75], [0.25, 0.125]],
+    "n2": [[v * 2.0**-12 for v in r] for r in [[0, 0], [0.125, 0.5], [0.5, 0.125], [0.375, 0.375], [0.75, 0.5], [0.625, 0.75], [0.25, 0.125], [3, 3], [3.25, 2.5]]],
     "i3": [[0, 0, 1], [1, 0, 1], [0, 2, 1], [8, 8, 1], [9, 8, 1], [8, 10, 1.5], [30, 0, 1]],
 }
-QUICK_SETS = ["a1", "b1", "d1", "e2", "f2", "h2", "j2", "k1", "m2"]
+QUICK_SETS = ["a1", "b1", "d1", "e2", "f2", "h2", "j2", "k1", "m2", "n2"]
 CAPS = {"quick": [1, 2, 3, 5], "thorough": [1, 2, 3, 4, 5, 8]}
 THRS = [None, 0.0, 1e-3, 0.1, 1.0, 1e9]
 
@@ -62,8 +63,12 @@ def cases(tier, seed):
         comps = compositions(n)
         if tier == "quick":
             kinds = ["np", (n,), (1, n - 1), (n // 2, n - n // 2), tuple([1] * n)]
+            if all(float(v).is_integer() for r in X for v in r):
+                kinds.append("np_int")  # the same values held in integer arrays (data and explicit initial centroids)
         else:
             kinds = ["np"] + [c for c in comps if len(c) <= 3] + [tuple([1] * n)]
+            if all(float(v).is_integer() for r in X for v in r):
+                kinds.append("np_int")
         lo = [min(r[d] for r in X) for d in range(len(X[0]))]
         hi = [max(r[d] for r in X) for d in range(len(X[0]))]
         mid = [(a + b) / 2 for a, b in zip(lo, hi)]
@@ -94,6 +99,8 @@ def _mk(X, kind):
     A = np.array(X, dtype=float)
     if kind == "np":
         return A
+    if kind == "np_int":
+        return A.astype(np.int64)
     import dask.array as da
 
     return da.from_array(A, chunks=(tuple(kind), (A.shape[1],)))
@@ -105,7 +112,10 @@ def _fit(case, X, init, cap, thr):
     if isinstance(init, str):
         m = KMeansMachine(case["K"], init_method=init, random_state=case["rs"], max_iter=cap, convergence_threshold=thr)
     else:
-        m = KMeansMachine(case["K"], init_method=np.array(init, dtype=float), max_iter=cap, convergence_threshold=thr)
+        ini = np.array(init, dtype=float)
+        if case["kind"] == "np_int" and np.all(ini == np.round(ini)):
+            ini = ini.astype(np.int64)
+        m = KMeansMachine(case["K"], init_method=ini, max_iter=cap, convergence_threshold=thr)
     m.fit(_mk(X, case["kind"]))
     return m
 
@@ -118,7 +128,7 @@ def run_case(case):
     A = np.array(X, dtype=float)
     tier = case.get("tier", "quick")
     caps = CAPS[tier]
-    is_dask = case["kind"] != "np"
+    is_dask = case["kind"] not in ("np", "np_int")
     if is_dask and tier == "quick":
         caps, thrs = [1, 2, 5], [None, 1e-3, 0.1]
     else:
@@ -156,7 +166,7 @@ def run_case(case):
     spread = max(max(r[d] for r in X) - min(r[d] for r in X) for d in range(len(X[0]))) + 1.0
     spread = max(spread, max(abs(v - w) for r in C0.tolist() for v, w in zip(r, X[0])) + 1.0)
     scale = big * spread
-    tags = dict(kind="dask" if is_dask else "numpy", init=init if isinstance(init, str) else "explicit")
+    tags = dict(kind="dask" if is_dask else ("numpy-int" if case["kind"] == "np_int" else "numpy"), init=init if isinstance(init, str) else "explicit")
 
     def valid(k):
         return bad_from is None or k < bad_from
